@@ -157,12 +157,9 @@ IPv4Reassembler::key_type IPv4Reassembler::make_key(const IP* ip) const {
 }
 
 IPv4Reassembler::address_pair IPv4Reassembler::make_address_pair(IPv4Address addr1, IPv4Address addr2) const {
-    if (addr1 < addr2) {
-        return make_pair(addr1, addr2);
-    }
-    else {
-        return make_pair(addr2, addr1);
-    }
+    // Fragments belong to the same datagram only if both the source and the
+    // destination are the same (RFC 791, 3.2), don't mix both directions
+    return make_pair(addr1, addr2);
 }
 
 void IPv4Reassembler::clear_streams() {
